@@ -21,12 +21,13 @@ func init() {
 			"Does not decide: the trigger criteria arithmetic on sample values, non-overlap and the auto-trigger gap bound (numeric over stream contents).",
 		RuleDocs: []string{
 			"C02.R1 two-copies congruence (E3) after every clobbering store (field store, whole-struct store, composite literal)",
-			"C02.R2 polynomial form of the retained-history amount; argument of the trim call",
+			"C02.R2 polynomial form of the retained-history amount; argument of the trim call; a trim placed before the block's scan in the per-channel step keeps a field stored right after the previous scan (not the amount computed from the current record length)",
 			"C02.R3 congruence of scan-window bounds and of the dead-time skip; in the level pass, after the veto by a record found earlier (i + NSamples > next found trigger) the scan resumes at that trigger + NSamples on every way round the loop",
 			"C02.R4 LastTrigger store: guarded by len(records)>0, value = records[len-1].trigFrame",
 			"C02.R5 must-pass-through EMTState.reset on successful reconfiguration",
 			"C02.R7 every record creation in a trigger pass is reachable only through the true side of the pass's enable flag and, where the pass has direction flags, through the true side of a direction test or a comparison with a threshold variable that a direction flag switches (a phi of an unreachable constant and a value assigned directly under `if flag`); such a threshold is installed under its own flag alone (not on the false side of another direction's flag)",
 			"C02.R8 in a pass that shifts the samples by a constant in the sample type, a bare shifted sample is compared in that type with a threshold that received the same constant in the same type",
+			"C02.R9 (thinning) a helper that copies the found records under a comparison with a parameter is given firstPotentialTriggerFrame(), the scan start common to all passes, not a pass's own first candidate",
 			"C02.R9 time order of the found records where it is relied on: every pass of TriggerData that walks the records found so far by index, and the LastTrigger bookkeeping that takes the last record as the latest, receive a list that is empty, sorted by a dominating sort, or returned by passes whose every return hands the ordered argument back or sorts what it appended",
 			"C02.R6 initial hold-off: every store to LastTrigger reachable from the per-start preparation step writes a far-past constant (so the first block is searched from NPresamples on)",
 		},
